@@ -4,7 +4,15 @@
 // harness-owned (race-free) callbacks for a bounded wall time (VERIF_RACE_SECONDS, default 1) and a bounded number
 // of operations.  There is no model and no history here: the only verdict is the race detector's.  ./check C13 runs
 // these in the thorough tier, and in the quick tier only for the types whose table entries were rejected; a report
-// "WARNING: DATA RACE" is appended to the replay file.
+// "WARNING: DATA RACE" is appended to the replay file and is what makes a rejected table a VIOLATION with a failing input.
+//
+// Coverage rule: every exported function / method of the 21 files of the property is called concurrently by some
+// workload, including the rarely used variants (nil callbacks, nil / open / loaded / closed error channels, TryHoldLock,
+// HoldLockMaybeAsync, RLocker, the ...WithLogger and ...VT constructors, WithRetry / WithExitLogger options, conds of
+// Reset/Restart(All)Routine(s), ResolveWithReleased, Access with a failing callback, keepUnref, pre-resolved promises).
+// Workloads that start late on purpose (a goroutine that first touches an object after another one finished an
+// operation on it, with no synchronisation of the harness in between) are what demonstrates "fast path without the
+// lock" races: the detector needs an access that is not ordered, not a lucky interleaving.
 package racex
 
 import (
@@ -20,6 +28,7 @@ import (
 	"testing"
 	"time"
 
+	ubackoff "github.com/aperturerobotics/util/backoff"
 	"github.com/aperturerobotics/util/broadcast"
 	"github.com/aperturerobotics/util/ccall"
 	"github.com/aperturerobotics/util/ccontainer"
@@ -35,6 +44,7 @@ import (
 	"github.com/aperturerobotics/util/refcount"
 	"github.com/aperturerobotics/util/routine"
 	cbackoff "github.com/cenkalti/backoff/v4"
+	"github.com/sirupsen/logrus"
 )
 
 const workers = 8
@@ -85,6 +95,40 @@ func runFor(t *testing.T, d time.Duration, n, maxOps int, body func(id int, rng 
 
 func shortCtx(rng *rand.Rand) (context.Context, context.CancelFunc) {
 	return context.WithTimeout(context.Background(), time.Duration(1+rng.Intn(3))*time.Millisecond)
+}
+
+// errChan: the optional error channel of the Wait* / Await* functions in its four states
+func errChan(rng *rand.Rand) <-chan error {
+	switch rng.Intn(4) {
+	case 0:
+		return nil
+	case 1:
+		return make(chan error) // open, never written
+	case 2:
+		ch := make(chan error, 1)
+		ch <- errors.New("from errCh")
+		return ch
+	}
+	ch := make(chan error)
+	close(ch)
+	return ch
+}
+
+// quietLogger: a logger that formats its entries (so the arguments are read) and writes them nowhere
+func quietLogger() *logrus.Entry {
+	l := logrus.New()
+	l.SetOutput(io.Discard)
+	l.SetLevel(logrus.DebugLevel)
+	return logrus.NewEntry(l)
+}
+
+// rounds: how many short rounds a workload that needs many fresh objects runs within the time budget
+func rounds(each time.Duration) int {
+	n := int(seconds() / each)
+	if n < 8 {
+		n = 8
+	}
+	return n
 }
 
 func TestRace_Broadcast(t *testing.T) {
@@ -209,18 +253,74 @@ func TestRace_CContainer(t *testing.T) {
 			_ = c.SwapValue(func(v int) int { return (v + 1) % 4 })
 		case 3:
 			ctx, cancel := shortCtx(rng)
-			_, _ = c.WaitValue(ctx, nil)
+			_, _ = c.WaitValue(ctx, errChan(rng))
 			cancel()
 		case 4:
 			ctx, cancel := shortCtx(rng)
-			_, _ = c.WaitValueChange(ctx, rng.Intn(4), nil)
+			_, _ = c.WaitValueChange(ctx, rng.Intn(4), errChan(rng))
 			cancel()
 		case 5:
 			ctx, cancel := shortCtx(rng)
-			_ = c.WaitValueEmpty(ctx, nil)
+			_ = c.WaitValueEmpty(ctx, errChan(rng))
 			cancel()
 		}
 	})
+}
+
+type vtMsg struct{ n int }
+
+func (m *vtMsg) EqualVT(o *vtMsg) bool { return (m == nil) == (o == nil) && (m == nil || m.n == o.n) }
+
+// the other constructors (default comparison, EqualVT), late readers of a value set by a finished writer
+func TestRace_CContainerVariants(t *testing.T) {
+	msgs := []*vtMsg{nil, {1}, {2}, {2}}
+	n := rounds(20 * time.Millisecond)
+	for round := 0; round < n; round++ {
+		c := ccontainer.NewCContainer(0)
+		v := ccontainer.NewCContainerVT[*vtMsg](nil)
+		runFor(t, seconds()/time.Duration(n), workers, 48, func(id int, rng *rand.Rand, i int) {
+			if i == 0 && id > 0 {
+				time.Sleep(time.Duration(rng.Intn(300)) * time.Microsecond) // late: after worker 0's first writes
+			}
+			switch rng.Intn(10) {
+			case 0:
+				c.SetValue(rng.Intn(3))
+			case 1:
+				v.SetValue(msgs[rng.Intn(len(msgs))])
+			case 2:
+				_ = c.GetValue()
+				_ = v.GetValue()
+			case 3:
+				_ = c.SwapValue(nil)
+				_ = v.SwapValue(nil)
+			case 4:
+				_ = c.SwapValue(func(x int) int { return (x + 1) % 3 })
+			case 5:
+				_ = v.SwapValue(func(m *vtMsg) *vtMsg { return msgs[rng.Intn(len(msgs))] })
+			case 6:
+				ctx, cancel := shortCtx(rng)
+				_, _ = v.WaitValue(ctx, errChan(rng))
+				cancel()
+			case 7:
+				ctx, cancel := shortCtx(rng)
+				_, _ = v.WaitValueChange(ctx, msgs[rng.Intn(len(msgs))], nil)
+				cancel()
+			case 8:
+				ctx, cancel := shortCtx(rng)
+				_, _ = c.WaitValueWithValidator(ctx, func(x int) (bool, error) {
+					if x == 2 {
+						return false, errors.New("invalid")
+					}
+					return x == 1, nil
+				}, errChan(rng))
+				cancel()
+			case 9:
+				ctx, cancel := shortCtx(rng)
+				_ = v.WaitValueEmpty(ctx, nil)
+				cancel()
+			}
+		})
+	}
 }
 
 func TestRace_CallConcurrently(t *testing.T) {
@@ -254,23 +354,42 @@ func TestRace_ConcurrentQueue(t *testing.T) {
 	var done atomic.Int64
 	job := func() { done.Add(1) }
 	q := conc.NewConcurrentQueue(3, job, job)
+	u := conc.NewConcurrentQueue(0) // no concurrency limit
 	run(t, workers, 1<<18, func(id int, rng *rand.Rand, i int) {
-		switch rng.Intn(4) {
+		qq := q
+		if rng.Intn(4) == 0 {
+			qq = u
+		}
+		switch rng.Intn(6) {
 		case 0, 1:
-			q.Enqueue(job, job)
+			qq.Enqueue(job, job)
 		case 2:
 			ctx, cancel := shortCtx(rng)
-			_ = q.WaitIdle(ctx, nil)
+			_ = qq.WaitIdle(ctx, errChan(rng))
 			cancel()
 		case 3:
 			ctx, cancel := shortCtx(rng)
-			_ = q.WatchState(ctx, nil, func(queued, running int) (bool, error) { return queued+running > 0, nil })
+			_ = qq.WatchState(ctx, errChan(rng), func(queued, running int) (bool, error) { return queued+running > 0, nil })
+			cancel()
+		case 4:
+			_ = qq.WatchState(context.Background(), nil, nil)
+			qq.Enqueue()
+		case 5:
+			ctx, cancel := shortCtx(rng)
+			_ = qq.WatchState(ctx, nil, func(queued, running int) (bool, error) {
+				if queued > 2 {
+					return false, errors.New("long queue")
+				}
+				return true, nil
+			})
 			cancel()
 		}
 	})
-	ctx, cancel := context.WithTimeout(context.Background(), 5*time.Second)
-	_ = q.WaitIdle(ctx, nil)
-	cancel()
+	for _, qq := range []*conc.ConcurrentQueue{q, u} {
+		ctx, cancel := context.WithTimeout(context.Background(), 5*time.Second)
+		_ = qq.WaitIdle(ctx, nil)
+		cancel()
+	}
 }
 
 func TestRace_AtomicLIFO(t *testing.T) {
@@ -366,13 +485,29 @@ func TestRace_Keyed(t *testing.T) {
 			k.GetKeys()
 			k.GetKeysWithData()
 		case 6:
-			k.ResetRoutine(key, cond)
+			if rng.Intn(2) == 0 {
+				k.ResetRoutine(key, cond)
+			} else {
+				k.ResetRoutine(key)
+			}
 		case 7:
-			k.RestartRoutine(key)
+			if rng.Intn(2) == 0 {
+				k.RestartRoutine(key)
+			} else {
+				k.RestartRoutine(key, cond, cond)
+			}
 		case 8:
-			k.ResetAllRoutines(cond)
+			if rng.Intn(2) == 0 {
+				k.ResetAllRoutines(cond)
+			} else {
+				k.ResetAllRoutines()
+			}
 		case 9:
-			k.RestartAllRoutines()
+			if rng.Intn(2) == 0 {
+				k.RestartAllRoutines()
+			} else {
+				k.RestartAllRoutines(cond)
+			}
 		case 10:
 			if rng.Intn(8) == 0 {
 				k.ClearContext()
@@ -389,16 +524,85 @@ func TestRace_Keyed(t *testing.T) {
 	time.Sleep(10 * time.Millisecond)
 }
 
+// the logger constructor with the exit logger (reads the arguments of the exit callback), the library-built retry
+// back-off, two exit callbacks, no release delay
+func TestRace_KeyedOptions(t *testing.T) {
+	var exits atomic.Int64
+	le := quietLogger()
+	k := keyed.NewKeyedWithLogger(
+		func(key string) (keyed.Routine, *atomic.Int64) { d := &atomic.Int64{}; return keyedRoutine(d), d },
+		le,
+		keyed.WithRetry[string, *atomic.Int64](&ubackoff.Backoff{BackoffKind: ubackoff.BackoffKind_BackoffKind_CONSTANT, Constant: &ubackoff.Constant{Interval: 1}}),
+		keyed.WithExitCb[string, *atomic.Int64](func(key string, r keyed.Routine, d *atomic.Int64, err error) { exits.Add(d.Load()) }),
+		keyed.WithExitLogger[string, *atomic.Int64](le),
+	)
+	keys := []string{"a", "b", "c"}
+	ctx, cancel := context.WithCancel(context.Background())
+	defer cancel()
+	cond := func(key string, d *atomic.Int64) bool { return d.Load()%2 == 1 }
+	run(t, workers, 1<<18, func(id int, rng *rand.Rand, i int) {
+		key := keys[rng.Intn(len(keys))]
+		switch rng.Intn(9) {
+		case 0, 1:
+			k.SetKey(key, rng.Intn(2) == 0)
+		case 2:
+			k.RemoveKey(key)
+		case 3:
+			k.SyncKeys([]string{keys[rng.Intn(3)]}, rng.Intn(2) == 0)
+		case 4:
+			k.GetKey(key)
+			k.GetKeysWithData()
+		case 5:
+			k.RestartRoutine(key, cond)
+			k.ResetRoutine(key)
+		case 6:
+			k.RestartAllRoutines(cond)
+			k.ResetAllRoutines(cond)
+		case 7:
+			k.SetContext(ctx, rng.Intn(2) == 0)
+		case 8:
+			if rng.Intn(8) == 0 {
+				k.ClearContext()
+			}
+		}
+	})
+	k.ClearContext()
+	time.Sleep(10 * time.Millisecond)
+}
+
 func TestRace_KeyedRefCount(t *testing.T) {
+	var exits atomic.Int64
 	k := keyed.NewKeyedRefCount(
 		func(key int) (keyed.Routine, *atomic.Int64) { d := &atomic.Int64{}; return keyedRoutine(d), d },
 		keyed.WithReleaseDelay[int, *atomic.Int64](200*time.Microsecond),
+		keyed.WithBackoff[int, *atomic.Int64](func(int) cbackoff.BackOff { return &scriptBO{} }),
+		keyed.WithExitCb[int, *atomic.Int64](func(key int, r keyed.Routine, d *atomic.Int64, err error) { exits.Add(1) }),
+	)
+	// the logger constructor, no release delay: the last Release removes the key at once
+	k2 := keyed.NewKeyedRefCountWithLogger(
+		func(key int) (keyed.Routine, *atomic.Int64) { d := &atomic.Int64{}; return keyedRoutine(d), d },
+		quietLogger(),
 	)
 	ctx, cancel := context.WithCancel(context.Background())
 	defer cancel()
 	k.SetContext(ctx, true)
+	k2.SetContext(ctx, false)
+	cond := func(key int, d *atomic.Int64) bool { return d.Load()%2 == 0 }
 	run(t, workers, 1<<18, func(id int, rng *rand.Rand, i int) {
 		key := rng.Intn(3)
+		if rng.Intn(4) == 0 {
+			// the second container: references held across other operations
+			ref, _, _ := k2.AddKeyRef(key)
+			k2.GetKey(key)
+			k2.RestartRoutine(key, cond)
+			if rng.Intn(2) == 0 {
+				k2.RemoveKey(key)
+			}
+			k2.ResetAllRoutines(cond)
+			ref.Release()
+			k2.GetKeys()
+			return
+		}
 		switch rng.Intn(8) {
 		case 0, 1, 2:
 			ref, _, _ := k.AddKeyRef(key)
@@ -415,19 +619,20 @@ func TestRace_KeyedRefCount(t *testing.T) {
 			k.GetKeysWithData()
 		case 5:
 			k.RestartRoutine(key)
-			k.ResetRoutine(key)
+			k.ResetRoutine(key, cond)
 		case 6:
-			k.RestartAllRoutines()
+			k.RestartAllRoutines(cond)
 			k.ResetAllRoutines()
 		case 7:
 			if rng.Intn(6) == 0 {
 				k.ClearContext()
 			} else {
-				k.SetContext(ctx, true)
+				k.SetContext(ctx, rng.Intn(2) == 0)
 			}
 		}
 	})
 	k.ClearContext()
+	k2.ClearContext()
 	time.Sleep(10 * time.Millisecond)
 }
 
@@ -467,7 +672,7 @@ func TestRace_RoutineContainer(t *testing.T) {
 			c.RestartRoutine()
 		case 4:
 			wctx, wcancel := shortCtx(rng)
-			_ = c.WaitExited(wctx, rng.Intn(2) == 0, nil)
+			_ = c.WaitExited(wctx, rng.Intn(2) == 0, errChan(rng))
 			wcancel()
 		case 5:
 			if rng.Intn(6) == 0 {
@@ -477,6 +682,43 @@ func TestRace_RoutineContainer(t *testing.T) {
 			c2, cancel2 := context.WithCancel(ctx)
 			c.SetContext(c2, false)
 			cancel2()
+		}
+	})
+	c.ClearContext()
+	time.Sleep(10 * time.Millisecond)
+}
+
+// the logger constructor with the exit logger, the library-built retry back-off (constant, 1 ms), two exit callbacks
+func TestRace_RoutineContainerOptions(t *testing.T) {
+	var exits, cnt atomic.Int64
+	le := quietLogger()
+	c := routine.NewRoutineContainerWithLogger(le,
+		routine.WithExitCb(func(err error) { exits.Add(1) }),
+		routine.WithExitLogger(le),
+		routine.WithRetry(&ubackoff.Backoff{BackoffKind: ubackoff.BackoffKind_BackoffKind_CONSTANT, Constant: &ubackoff.Constant{Interval: 1}}),
+	)
+	ctx, cancel := context.WithCancel(context.Background())
+	defer cancel()
+	run(t, workers, 1<<18, func(id int, rng *rand.Rand, i int) {
+		switch rng.Intn(6) {
+		case 0:
+			_, _ = c.SetRoutine(plainRoutine(&cnt))
+		case 1:
+			c.SetContext(ctx, rng.Intn(2) == 0)
+		case 2:
+			c.RestartRoutine()
+		case 3:
+			wctx, wcancel := shortCtx(rng)
+			_ = c.WaitExited(wctx, rng.Intn(2) == 0, errChan(rng))
+			wcancel()
+		case 4:
+			if rng.Intn(8) == 0 {
+				c.ClearContext()
+			}
+		case 5:
+			if rng.Intn(8) == 0 {
+				c.SetRoutine(nil)
+			}
 		}
 	})
 	c.ClearContext()
@@ -496,7 +738,11 @@ func TestRace_StateRoutineContainer(t *testing.T) {
 		case 2:
 			_ = c.GetState()
 		case 3:
-			c.SwapValue(func(v int) int { return (v + 1) % 3 })
+			if rng.Intn(3) == 0 {
+				_, _, _, _, _ = c.SwapValue(nil)
+			} else {
+				_, _, _, _, _ = c.SwapValue(func(v int) int { return (v + 1) % 3 })
+			}
 		case 4:
 			if rng.Intn(6) == 0 {
 				c.SetStateRoutine(nil)
@@ -512,11 +758,71 @@ func TestRace_StateRoutineContainer(t *testing.T) {
 			}
 		case 7:
 			wctx, wcancel := shortCtx(rng)
-			_ = c.WaitExited(wctx, rng.Intn(2) == 0, nil)
+			_ = c.WaitExited(wctx, rng.Intn(2) == 0, errChan(rng))
 			wcancel()
 		}
 	})
 	c.ClearContext()
+	time.Sleep(10 * time.Millisecond)
+}
+
+// the VT and logger constructors; late GetState / SwapValue(nil) readers after a finished SetState
+func TestRace_StateRoutineContainerVariants(t *testing.T) {
+	var cnt atomic.Int64
+	msgs := []*vtMsg{nil, {1}, {2}, {2}}
+	le := quietLogger()
+	ctx, cancel := context.WithCancel(context.Background())
+	defer cancel()
+	n := rounds(25 * time.Millisecond)
+	for round := 0; round < n; round++ {
+		var v *routine.StateRoutineContainer[*vtMsg]
+		if round%2 == 0 {
+			v = routine.NewStateRoutineContainerVT[*vtMsg](routine.WithBackoff(&scriptBO{}))
+		} else {
+			v = routine.NewStateRoutineContainerWithLoggerVT[*vtMsg](le, routine.WithExitLogger(le))
+		}
+		w := routine.NewStateRoutineContainerWithLogger(func(a, b int) bool { return a == b }, le)
+		sr := func(ctx context.Context, st *vtMsg) error { return plainRoutine(&cnt)(ctx) }
+		wr := func(ctx context.Context, st int) error { return plainRoutine(&cnt)(ctx) }
+		runFor(t, seconds()/time.Duration(n), workers, 48, func(id int, rng *rand.Rand, i int) {
+			if i == 0 && id > 0 {
+				time.Sleep(time.Duration(rng.Intn(300)) * time.Microsecond)
+			}
+			switch rng.Intn(9) {
+			case 0:
+				v.SetState(msgs[rng.Intn(len(msgs))])
+				w.SetState(rng.Intn(3))
+			case 1:
+				_ = v.GetState()
+				_ = w.GetState()
+			case 2:
+				_, _, _, _, _ = v.SwapValue(nil)
+				_, _, _, _, _ = w.SwapValue(nil)
+			case 3:
+				_, _, _, _, _ = v.SwapValue(func(m *vtMsg) *vtMsg { return msgs[rng.Intn(len(msgs))] })
+			case 4:
+				v.SetStateRoutine(sr)
+				w.SetStateRoutine(wr)
+			case 5:
+				v.SetContext(ctx, rng.Intn(2) == 0)
+				w.SetContext(ctx, rng.Intn(2) == 0)
+			case 6:
+				v.RestartRoutine()
+				w.RestartRoutine()
+			case 7:
+				wctx, wcancel := shortCtx(rng)
+				_ = v.WaitExited(wctx, true, errChan(rng))
+				wcancel()
+			case 8:
+				if rng.Intn(4) == 0 {
+					v.ClearContext()
+					w.SetStateRoutine(nil)
+				}
+			}
+		})
+		v.ClearContext()
+		w.ClearContext()
+	}
 	time.Sleep(10 * time.Millisecond)
 }
 
@@ -546,7 +852,16 @@ func TestRace_RefCount(t *testing.T) {
 	run(t, workers, 1<<18, func(id int, rng *rand.Rand, i int) {
 		switch rng.Intn(10) {
 		case 0:
-			ref := rc.AddRef(func(resolved bool, val *int, err error) {})
+			var ref *refcount.Ref[*int]
+			if rng.Intn(3) == 0 {
+				ref = rc.AddRef(nil)
+			} else {
+				ref = rc.AddRef(func(resolved bool, val *int, err error) {
+					if resolved && val != nil {
+						_ = *val
+					}
+				})
+			}
 			time.Sleep(time.Duration(rng.Intn(200)) * time.Microsecond)
 			ref.Release()
 			ref.Release()
@@ -580,7 +895,12 @@ func TestRace_RefCount(t *testing.T) {
 			wcancel()
 		case 6:
 			wctx, wcancel := shortCtx(rng)
-			_ = rc.Access(wctx, func(ctx context.Context, v *int) error { return nil })
+			_ = rc.Access(wctx, func(ctx context.Context, v *int) error {
+				if v != nil && *v%2 == 0 {
+					return errors.New("access failed")
+				}
+				return nil
+			})
 			wcancel()
 		case 7:
 			if f := invalidate.Load(); f != nil {
@@ -602,14 +922,105 @@ func TestRace_RefCount(t *testing.T) {
 	time.Sleep(10 * time.Millisecond)
 }
 
-func TestRace_Promise(t *testing.T) {
-	for round := 0; round < 4; round++ {
-		p := promise.NewPromise[int]()
-		var trues atomic.Int64
-		runFor(t, seconds()/4, workers, 1<<12, func(id int, rng *rand.Rand, i int) {
-			switch rng.Intn(4) {
+// keepUnref = true, a context given to the constructor, no target containers, a resolver without a release function,
+// released callbacks; a new container per round, with readers that start late
+func TestRace_RefCountVariants(t *testing.T) {
+	n := rounds(25 * time.Millisecond)
+	for round := 0; round < n; round++ {
+		var resolves, released atomic.Int64
+		var invalidate atomic.Pointer[func()]
+		resolver := func(ctx context.Context, rel func()) (int, func(), error) {
+			k := resolves.Add(1)
+			invalidate.Store(&rel)
+			if k%4 == 0 {
+				return 0, nil, errors.New("resolve failed")
+			}
+			return int(k), nil, nil
+		}
+		ctx, cancel := context.WithCancel(context.Background())
+		var target *ccontainer.CContainer[int]
+		if round%2 == 0 {
+			target = ccontainer.NewCContainer(0)
+		}
+		rc := refcount.NewRefCount(ctx, round%4 < 2, target, nil, resolver)
+		runFor(t, seconds()/time.Duration(n), workers, 48, func(id int, rng *rand.Rand, i int) {
+			if i == 0 && id > 0 {
+				time.Sleep(time.Duration(rng.Intn(300)) * time.Microsecond)
+			}
+			switch rng.Intn(9) {
 			case 0:
-				if i > 2 && p.SetResult(id, nil) {
+				ref := rc.AddRef(nil)
+				ref.Release()
+			case 1:
+				prom, ref := rc.AddRefPromise()
+				wctx, wcancel := shortCtx(rng)
+				_, _ = prom.Await(wctx)
+				wcancel()
+				ref.Release()
+			case 2:
+				wctx, wcancel := shortCtx(rng)
+				if _, ref, err := rc.Wait(wctx); err == nil {
+					ref.Release()
+				}
+				wcancel()
+			case 3:
+				wctx, wcancel := shortCtx(rng)
+				prom, ref := rc.WaitWithReleased(wctx, func() { released.Add(1) })
+				_, _ = prom.AwaitWithErrCh(wctx, errChan(rng))
+				ref.Release()
+				wcancel()
+			case 4:
+				wctx, wcancel := shortCtx(rng)
+				if _, rel, err := rc.ResolveWithReleased(wctx, func() { released.Add(1) }); err == nil {
+					rel()
+					rel()
+				}
+				wcancel()
+			case 5:
+				wctx, wcancel := shortCtx(rng)
+				_ = rc.Access(wctx, func(ctx context.Context, v int) error { return nil })
+				wcancel()
+			case 6:
+				if f := invalidate.Load(); f != nil {
+					(*f)()
+				}
+			case 7:
+				if rng.Intn(4) == 0 {
+					rc.ClearContext()
+				} else {
+					rc.SetContext(ctx)
+				}
+			case 8:
+				if target != nil {
+					wctx, wcancel := shortCtx(rng)
+					_, _ = refcount.WaitRefCountContainer(wctx, target, nil)
+					wcancel()
+				}
+			}
+		})
+		rc.ClearContext()
+		cancel()
+	}
+	time.Sleep(10 * time.Millisecond)
+}
+
+func TestRace_Promise(t *testing.T) {
+	// Many short rounds, one promise each.  Worker 0 resolves early; the others start up to 300 us later, so some of
+	// them call Await for the first time AFTER SetResult has returned, without having waited on the promise and with no
+	// harness synchronisation in between: a fast path that reads result / err without going through the done channel
+	// is then an unordered access for the detector, not a matter of hitting a window.
+	n := rounds(12 * time.Millisecond)
+	for round := 0; round < n; round++ {
+		p := promise.NewPromise[int]()
+		var pre atomic.Pointer[promise.Promise[int]]
+		var trues atomic.Int64
+		runFor(t, seconds()/time.Duration(n), workers, 40, func(id int, rng *rand.Rand, i int) {
+			if i == 0 && id > 0 {
+				time.Sleep(time.Duration(rng.Intn(300)) * time.Microsecond)
+			}
+			switch rng.Intn(7) {
+			case 0:
+				if (id == 0 || i > 4) && p.SetResult(id, nil) {
 					trues.Add(1)
 				}
 			case 1:
@@ -618,12 +1029,35 @@ func TestRace_Promise(t *testing.T) {
 				cancel()
 			case 2:
 				ctx, cancel := shortCtx(rng)
-				_, _ = p.AwaitWithErrCh(ctx, nil)
+				_, _ = p.AwaitWithErrCh(ctx, errChan(rng))
 				cancel()
 			case 3:
 				ctx, cancel := shortCtx(rng)
-				_, _ = p.AwaitWithCancelCh(ctx, nil)
+				var cch <-chan struct{}
+				if rng.Intn(2) == 0 {
+					cch = ctx.Done()
+				}
+				_, _ = p.AwaitWithCancelCh(ctx, cch)
 				cancel()
+			case 4:
+				// pre-resolved promises, published through an atomic pointer
+				if rng.Intn(2) == 0 {
+					pre.Store(promise.NewPromiseWithResult(i, nil))
+				} else {
+					pre.Store(promise.NewPromiseWithErr[int](errors.New("pre")))
+				}
+			case 5:
+				if q := pre.Load(); q != nil {
+					ctx, cancel := shortCtx(rng)
+					_, _ = q.Await(ctx)
+					_, _ = q.AwaitWithErrCh(ctx, nil)
+					cancel()
+					_ = q.SetResult(1, nil)
+				}
+			case 6:
+				if i > 8 && p.SetResult(0, errors.New("failed")) {
+					trues.Add(1)
+				}
 			}
 		})
 		if trues.Load() > 1 {
@@ -639,9 +1073,12 @@ func TestRace_PromiseContainer(t *testing.T) {
 		case 0:
 			c.SetResult(i, nil)
 		case 1:
-			if rng.Intn(3) == 0 {
+			switch rng.Intn(4) {
+			case 0:
 				c.SetPromise(nil)
-			} else {
+			case 1:
+				c.SetPromise(promise.NewPromiseWithResult(i, nil))
+			default:
 				c.SetPromise(promise.NewPromise[int]())
 			}
 		case 2:
@@ -654,7 +1091,7 @@ func TestRace_PromiseContainer(t *testing.T) {
 			cancel()
 		case 4:
 			ctx, cancel := shortCtx(rng)
-			_, _ = c.AwaitWithErrCh(ctx, nil)
+			_, _ = c.AwaitWithErrCh(ctx, errChan(rng))
 			cancel()
 		case 5:
 			ctx, cancel := shortCtx(rng)
@@ -667,44 +1104,61 @@ func TestRace_PromiseContainer(t *testing.T) {
 }
 
 func TestRace_Once(t *testing.T) {
-	var calls atomic.Int64
-	o := promise.NewOnce(func(ctx context.Context) (int, error) {
-		k := calls.Add(1)
-		select {
-		case <-ctx.Done():
-			return 0, context.Canceled
-		case <-time.After(100 * time.Microsecond):
-		}
-		if k < 4 {
-			return 0, errors.New("not yet")
-		}
-		return int(k), nil
-	})
-	run(t, workers, 1<<16, func(id int, rng *rand.Rand, i int) {
-		ctx, cancel := shortCtx(rng)
-		_, _ = o.Resolve(ctx)
-		cancel()
-	})
+	n := rounds(25 * time.Millisecond)
+	for round := 0; round < n; round++ {
+		var calls atomic.Int64
+		o := promise.NewOnce(func(ctx context.Context) (int, error) {
+			k := calls.Add(1)
+			select {
+			case <-ctx.Done():
+				return 0, context.Canceled
+			case <-time.After(100 * time.Microsecond):
+			}
+			if k < 3 {
+				return 0, errors.New("not yet")
+			}
+			return int(k), nil
+		})
+		runFor(t, seconds()/time.Duration(n), workers, 64, func(id int, rng *rand.Rand, i int) {
+			if i == 0 && id > 0 {
+				time.Sleep(time.Duration(rng.Intn(600)) * time.Microsecond)
+			}
+			ctx, cancel := shortCtx(rng)
+			if rng.Intn(8) == 0 {
+				cancel() // an already cancelled caller
+			}
+			_, _ = o.Resolve(ctx)
+			cancel()
+		})
+	}
 	time.Sleep(5 * time.Millisecond)
 }
 
 func TestRace_MemoizeFunc(t *testing.T) {
 	for round := 0; round < 50; round++ {
 		var calls atomic.Int64
+		fail := round%3 == 2
 		f := memo.MemoizeFunc(func() (int, error) {
 			calls.Add(1)
 			time.Sleep(50 * time.Microsecond)
+			if fail {
+				return 7, errors.New("memo failed")
+			}
 			return 7, nil
 		})
 		var wg sync.WaitGroup
 		for g := 0; g < workers; g++ {
 			wg.Add(1)
-			go func() {
+			go func(g int) {
 				defer wg.Done()
-				if v, err := f(); v != 7 || err != nil {
+				if g >= workers/2 {
+					time.Sleep(time.Duration(g*40) * time.Microsecond) // late: after the first call has returned
+				}
+				if v, err := f(); v != 7 || (err != nil) != fail {
 					t.Errorf("memo returned %d %v", v, err)
 				}
-			}()
+				_, _ = f()
+			}(g)
 		}
 		wg.Wait()
 		if calls.Load() != 1 {
@@ -731,7 +1185,10 @@ func TestRace_IOCloser(t *testing.T) {
 		buf := &lockedBuf{}
 		buf.Write(bytes.Repeat([]byte("x"), 1<<16))
 		rc := iocloser.NewReadCloser(buf, func() error { closes.Add(1); return nil })
-		wc := iocloser.NewWriteCloser(buf, func() error { closes.Add(1); return nil })
+		wc := iocloser.NewWriteCloser(buf, func() error { closes.Add(1); return errors.New("close failed") })
+		if round%2 == 1 {
+			rc, wc = iocloser.NewReadCloser(buf, nil), iocloser.NewWriteCloser(buf, nil)
+		}
 		runFor(t, seconds()/4, workers, 1<<12, func(id int, rng *rand.Rand, i int) {
 			p := make([]byte, 8)
 			switch rng.Intn(8) {
